@@ -192,7 +192,8 @@ def shirokov_degree(ctx):
                              f"reached and the result is not an inverse", assigns[0])
 
 
-@rule("C07.shirokov-recursion", props=["C07"], min_instances=3, mutants=[
+@rule("C07.shirokov-recursion", props=["C07", "C13"], min_instances=5, mutants=[
+    ("the last step is recognised by the stored grades only", ("codegen", "        if i == n or xi.grades == (0,):", "        if xi.grades == (0,):")),
     ("coefficient c_k without the factor n/k", ("codegen", "        cs.append(s if (s := xi.e) == 0 else n * s / i)", "        cs.append(s if (s := xi.e) == 0 else n * s)")),
     ("correction uses the wrong power", ("codegen", "            power_idx = i - j - 2", "            power_idx = i - j - 1 if i - j - 1 < len(powers) - 1 else i - j - 2")),
     ("adjugate with the sign of c flipped", ("codegen", "        adj = xs[-1] - cs[-1]", "        adj = xs[-1] + cs[-1]")),
@@ -203,21 +204,24 @@ def shirokov_recursion(ctx):
     U_{k+1} = x (U_k - c_k), result (U_{n-1} - c_{n-1}) / <U_n>_0 with n = 2^ceil(d/2): codegen_shirokov_inv is interpreted
     on an opaque operand (free-algebra normal forms, scalar parts as opaque scalars) and compared with the recursion.
     Trusted: U_n is a scalar (Cayley-Hamilton in the matrix representation) - the interpreter is told that the n-th U
-    is of grade 0 and no earlier one is."""
+    is of grade 0 and no earlier one is; in the "nothing filtered" cells every intermediate result reports all grades,
+    as it does with simp_func=None (finding F15: the loop then ran one step too far and the inverse was 0)."""
     repo = ctx.repo
     q = "codegen.codegen_shirokov_inv"
     fn = ctx.func(q)
     x = T.var("x")
-    for d in (2, 3, 6):
-        c = f"{q}#recursion,d={d}"
+    for d, filtered in ((2, True), (3, True), (6, True), (3, False), (6, False)):
+        # filtered: vanishing coefficients are removed from intermediate results (the default simp_func), so the n-th U
+        # stores grade 0 only; not filtered (simp_func=None): every intermediate keeps all its grades
+        c = f"{q}#recursion,d={d}" + ("" if filtered else ",nothing filtered (simp_func=None)")
         n = 2 ** ((d + 1) // 2)
         it = tree_interp(repo, d)
         seen = {"grades": 0}
 
-        def hook(v, name, seen=seen, n=n, d=d):
+        def hook(v, name, seen=seen, n=n, d=d, filtered=filtered):
             if isinstance(v, T) and name == "grades":
                 seen["grades"] += 1
-                return (0,) if seen["grades"] == n else tuple(range(d + 1))
+                return (0,) if (filtered and seen["grades"] == n) else tuple(range(d + 1))
             return NotImplemented
         it.attr_hook = hook
         it.t_truth = lambda t: bool(t.terms)
